@@ -28,6 +28,13 @@ CHECKS = {
         technique="contract-based deductive verification (ast->z3 VCs, loop invariants, lemma VCs for nonlinear arithmetic); bounded run-time cross-check for the counter clause",
         design_ref="DESIGN 3 C10",
     ),
+    "C32": dict(
+        level="proof",
+        text="Deductive: parallel() (list, list+generator_unordered and dict modes, sequential and joblib branches), its nested generator yield_results, the tagging closure f and _dict_job are symbolically executed from the real source; joblib is an assumed contract in which the completion order is a universally quantified bijection pi (any order, any worker count), so result[i] == run(jobs[i]) and dict[k] == run(jobs[k]) are proved for every job list and every completion order. A bounded cross-check runs the real parallel() with sleeping jobs over lengths x worker counts.",
+        note=_TB + "joblib Parallel/delayed assumed (each job run exactly once; order = some bijection); function-value dispatch (calling the value of a def runs that def); generators modelled by their yielded sequence; pbar=None (progress bar outside the property); dict key order not claimed.",
+        technique="contract-based deductive verification (ast->z3 VCs, loop invariant over a symbolic permutation), bounded run-time cross-check",
+        design_ref="DESIGN 3 C32",
+    ),
 }
 for k in CHECKS:
     PENDING.pop(k, None)
